@@ -221,8 +221,11 @@ def plan(seed, tier="quick", index=0):
         idents.append({"kind": kind, "keys": keys_, "m": m})
     clean = stratum in ("clean", "concurrent")
     funding = []
+    many = (not clean) and rng.random() < 0.04  # one wallet with a lot of small coins: many inputs in one transaction
     for i in range(n_id):
         k = 1 if clean else rng.choice([1, 1, 2, 3, 4, 6])
+        if many and i == 0:
+            k = rng.choice([12, 17, 24])
         for j in range(k):
             cls = "exact" if clean else rng.choice(["exact", "inexact", "inexact", "small", "dust", "huge", "random"])
             funding.append(
@@ -239,8 +242,8 @@ def plan(seed, tier="quick", index=0):
         big = max(funding, key=lambda f: f["sat"])
         big["sat"] = big["sat"] // 7 + 1
     sends = []
-    for s in range(1 if clean else rng.choice([1, 2, 3, 4, 5])):
-        who = rng.randrange(n_id)
+    for s in range(1 if clean else (2 if many else rng.choice([1, 2, 3, 4, 5, 5, 9]))):
+        who = 0 if many and s == 0 else rng.randrange(n_id)
         rk = rng.choice(["identity", "identity", "identity", "p2pkh", "p2sh", "p2wpkh", "p2wsh", "p2tr", "pubkey"] + ([] if clean else ["raw"]))
         rdesc = {"kind": rk, "hash": hashlib.sha256(b"rcpt%d/%d" % (seed & 0xFFFFFFFF, s)).hexdigest()}
         if rk == "identity":
